@@ -11,6 +11,7 @@ use super::common::*;
 use super::Case;
 use crate::deriv::*;
 use crate::gen::{gen_options, GenOpts};
+use crate::outcome::Outcome;
 use crate::rng::Rng;
 use crate::spec::*;
 
@@ -298,6 +299,60 @@ pub fn run_case(case: &mut Case) {
                         .set("observed", format!("Stderr({:?})", r.unwrap_or_default())),
                 );
             }
+        }
+        // (ii) another name of a command written right behind the command name is a word like
+        // any other: it is delivered (or refused) exactly like an unrelated word in its place
+        for (ix, o) in line.origin.iter().enumerate() {
+            if o.role != Role::CmdName || o.after_dd {
+                continue;
+            }
+            let names = match &units[o.unit].kind {
+                UKind::CmdName { names, .. } if names.len() > 1 => names.clone(),
+                _ => continue,
+            };
+            let typed = String::from_utf8_lossy(&line.argv[ix]).to_string();
+            let other = match names.iter().find(|n| **n != typed) {
+                Some(n) => n.clone(),
+                None => continue,
+            };
+            let neutral = b"zzneutralword".to_vec();
+            let mut with_alias = line.argv.clone();
+            with_alias.insert(ix + 1, other.clone().into_bytes());
+            let mut with_word = line.argv.clone();
+            with_word.insert(ix + 1, neutral.clone());
+            let (o_alias, _) = b.run(case, &with_alias, "insert:command-alias-behind-command-name");
+            let (o_word, _) = b.run(case, &with_word, "insert:word-behind-command-name");
+            let abnormal = |o: &Outcome| matches!(o, Outcome::Panic(_) | Outcome::FuelExhausted);
+            if abnormal(&o_alias) || abnormal(&o_word) {
+                continue;
+            }
+            let agree = match (&o_alias, &o_word) {
+                (Outcome::Value(a), Outcome::Value(w)) => {
+                    let mut w = w.clone();
+                    subst_bytes(&mut w, &neutral, other.as_bytes());
+                    *a == w
+                }
+                (Outcome::Stderr { .. }, Outcome::Stderr { .. }) => true,
+                (a, w) => a == w,
+            };
+            if !agree {
+                case.rep.violation(
+                    "insert:command-alias-behind-command-name:differs-from-a-word",
+                    "conservation",
+                    case.index,
+                    b.detail(
+                        &with_alias,
+                        "insert:command-alias-behind-command-name",
+                        &format!(
+                            "what an unrelated word in that place gives ({}): {}",
+                            crate::json::show_argv(&with_word).render(),
+                            o_word.show()
+                        ),
+                        &o_alias,
+                    ),
+                );
+            }
+            break;
         }
     }
 }
